@@ -42,6 +42,14 @@ func evalC05RT(c c05RT, o *Obs) error {
 		o.Class("C05:rt-private")
 	}
 	o.NT()
+	if priv, err := k.ECPrivKey(); err == nil {
+		if b := pad32(priv.D); b[0] == 0 {
+			o.Class("C05:rt-scalar-with-leading-zero-byte")
+			if b[1] == 0 {
+				o.Class("C05:rt-scalar-with-two-leading-zero-bytes")
+			}
+		}
+	}
 	s := k.String()
 	p, err := hdkeychain.NewKeyFromString(s)
 	if err != nil {
@@ -74,6 +82,33 @@ var kC05RT = register(&Kind[c05RT]{
 		n := rapid.IntRange(0, 5).Draw(t, "pathlen")
 		for i := 0; i < n; i++ {
 			c.Path = append(c.Path, genIndex(t))
+		}
+		// directed: end the path at a key whose private scalar has one (often) or two (sometimes)
+		// leading zero bytes - its in-memory form and its re-parsed form must derive the same children
+		if cls := rapid.IntRange(0, 23).Draw(t, "lz"); cls <= 3 {
+			if r, err := refMaster(c.Seed, c.Net); err == nil {
+				ok := true
+				for _, i := range c.Path {
+					if r, err = r.child(i); err != nil {
+						ok = false
+						break
+					}
+				}
+				if ok {
+					zb, tries := 1, uint32(3000)
+					if cls == 0 {
+						zb, tries = 2, 400000
+					}
+					start := rapid.Uint32().Draw(t, "lz_start")
+					pub := r.pubBytes()
+					for d := uint32(0); d < tries; d++ {
+						if refChildScalarHasLZ(r, pub, start+d, zb) {
+							c.Path = append(c.Path, start+d)
+							break
+						}
+					}
+				}
+			}
 		}
 		return c
 	},
@@ -306,6 +341,7 @@ func TestC05(t *testing.T) {
 		kC05Str.Run(t, ev, perShard(pick(1000, 100000)))
 		ev.requireClasses("C05:accepted", "C05:rejected:ref: scalar out of range", "C05:rejected:ref: point not on curve",
 			"C05:rejected:ref: key data prefix", "C05:rejected:ref: checksum", "C05:rejected:ref: length",
-			"C05:all-single-bit-flips", "C05:leading-ones", "C05:rt-public", "C05:rt-private")
+			"C05:all-single-bit-flips", "C05:leading-ones", "C05:rt-public", "C05:rt-private",
+			"C05:rt-scalar-with-leading-zero-byte", "C05:rt-scalar-with-two-leading-zero-bytes")
 	})
 }
